@@ -74,6 +74,7 @@ pub struct Cfg {
     pub effects: bool,      // plant division by zero / divergence in unevaluated positions
     pub big_ints: bool,
     pub type_level: bool,   // type-level redexes, aliases and conditionals in annotations
+    pub recursion: bool,    // recursive and mutually recursive function definitions
 }
 
 pub struct ProgGen<'a> {
@@ -453,8 +454,8 @@ impl<'a> ProgGen<'a> {
         let mut kinds: Vec<Kind> = vec![];
         while kinds.len() < n {
             match self.r.below(12) {
-                0 | 1 => kinds.push(Kind::RecFn),
-                2 if kinds.len() + 2 <= n + 1 => {
+                0 | 1 if self.cfg.recursion => kinds.push(Kind::RecFn),
+                2 if self.cfg.recursion && kinds.len() + 2 <= n + 1 => {
                     kinds.push(Kind::MutualA);
                     kinds.push(Kind::MutualB);
                 }
@@ -675,8 +676,12 @@ pub struct Program {
 }
 
 pub fn gen_program_of(r: &mut Rng, mode: Mode, ty: &GT) -> Program {
+    gen_program_with(r, mode, ty, true)
+}
+
+pub fn gen_program_with(r: &mut Rng, mode: Mode, ty: &GT, recursion: bool) -> Program {
     let size = 4 + r.usize(30);
-    let cfg = Cfg { mode, size, effects: false, big_ints: r.chance(1, 3), type_level: r.chance(2, 3) };
+    let cfg = Cfg { mode, size, effects: false, big_ints: r.chance(1, 3), type_level: r.chance(2, 3), recursion };
     let depth = 2 + r.usize(3);
     let mut g = ProgGen::new(r, cfg);
     let h = if g.r.chance(1, 2) { g.group(ty, depth) } else { g.term(ty, depth) };
@@ -685,7 +690,7 @@ pub fn gen_program_of(r: &mut Rng, mode: Mode, ty: &GT) -> Program {
 
 pub fn gen_program(r: &mut Rng, mode: Mode) -> Program {
     let size = if r.chance(1, 8) { 40 + r.usize(80) } else { 4 + r.usize(30) };
-    let cfg = Cfg { mode, size, effects: false, big_ints: r.chance(1, 3), type_level: r.chance(2, 3) };
+    let cfg = Cfg { mode, size, effects: false, big_ints: r.chance(1, 3), type_level: r.chance(2, 3), recursion: true };
     let depth = 2 + r.usize(4);
     let mut g = ProgGen::new(r, cfg);
     let ty = match g.r.below(10) {
